@@ -12,6 +12,8 @@ def main():
     chk.timeout = 40 if chk.tier == 'quick' else 300
     for fn in ('mjraw_PlaneSphere', 'mjraw_SphereSphere', 'c13_frame'):
         chk.unit('verif:shims/c13_prims.c', fn, prims.CONTRACTS, 'math', 'real', abspath=SHIM, check_arith=False)
+    for fn in ('getMargin', 'getGap'):
+        chk.unit('src/engine/engine_collision_driver.c', fn, prims.MARGIN_CONTRACTS, 'math', 'real')
     import hashlib
     from vlib.cast import REPO
     for f in ('src/engine/engine_collision_primitive.c', 'src/engine/engine_util_spatial.c', 'src/engine/engine_util_blas.c'):
